@@ -17,16 +17,42 @@ import (
 
 type sizeCase struct {
 	mcase.Case
-	Source     string // "built" | "decoded" (from Marshal output) | "decoded-ref" (from the perturbed reference encoding)
+	Source     string // "built" | "decoded" (from Marshal output) | "decoded-ref" (from the perturbed reference encoding) | "recycled"
 	Lazy       bool
 	Det        bool
 	Prefix     []byte
 	SpareCap   int
 	TouchFirst bool // access every field between Size and Marshal (only matters for lazy messages)
+	// Source "recycled": the instance held Pre before (see mcase.Recycle)
+	Pre        *model.Msg `json:",omitempty"`
+	PreMarshal bool       `json:",omitempty"`
+	Hollowed   int        `json:",omitempty"`
 }
 
 func (c sizeCase) message() (protoreflect.Message, error) {
 	m, err := c.Build()
+	if c.Source == "recycled" {
+		// an instance that held Pre, was sized / marshalled (all caches warm), and was then
+		// transformed in place into c.M
+		pc := c.Case
+		pc.M = c.Pre
+		m, err = pc.Build()
+		if err != nil {
+			return nil, fmt.Errorf("harness: %v", err)
+		}
+		mo := proto.MarshalOptions{AllowPartial: true, Deterministic: c.Det}
+		if c.PreMarshal {
+			if _, err := mo.Marshal(m.Interface()); err != nil {
+				return nil, fmt.Errorf("Marshal of the previous (valid) content failed: %v", err)
+			}
+		} else {
+			mo.Size(m.Interface())
+		}
+		if err := mcase.Recycle(m, c.M); err != nil {
+			return nil, fmt.Errorf("harness: %v", err)
+		}
+		return m, nil
+	}
 	if err != nil || c.Source == "built" {
 		return m, err
 	}
@@ -119,13 +145,13 @@ func checkSize(c sizeCase) error {
 		return fmt.Errorf("MarshalAppend modified the caller's prefix bytes")
 	}
 	// cross-implementation size: other implementation built from the model, and the reference encoder
-	if c.Source == "built" || !exception {
+	if c.Source == "built" || c.Source == "recycled" || !exception {
 		other := mcase.New(c.Type, !c.Dynamic)
 		if err := model.Apply(other, c.M, nil); err != nil {
 			return err
 		}
 		// only comparable when this message holds exactly the model (unknown tags may have been normalised when decoded)
-		if c.Source == "built" {
+		if c.Source == "built" || c.Source == "recycled" {
 			if so := mo.Size(other.Interface()); so != size {
 				return fmt.Errorf("Size differs between implementations: dynamic=%v %d, dynamic=%v %d", c.Dynamic, size, !c.Dynamic, so)
 			}
@@ -142,7 +168,7 @@ var lazyTypes = corpus.LazyCapable()
 func TestSize(t *testing.T) {
 	pbt.Run(t, pbt.Prop[sizeCase]{
 		Name: "size",
-		Rule: "message built from the model, or decoded (lazy on/off) from Marshal output or from a perturbed reference encoding; 1/4 of the cases use lazy-capable types; prefixes 0..300 bytes with spare capacity 0..2000. non-trivial = encoded size >= 128 with a nested message or map, or a lazy-capable type decoded lazily",
+		Rule: "message built from the model, decoded (lazy on/off) from Marshal output or from a perturbed reference encoding, or recycled (an instance that held other content, was sized / marshalled, and was transformed in place, some submessages emptied while staying present); 1/4 of the cases use lazy-capable types; prefixes 0..300 bytes with spare capacity 0..2000. non-trivial = encoded size >= 128 with a nested message or map, or a lazy-capable type decoded lazily",
 		Draw: func(t *rapid.T) sizeCase {
 			var c sizeCase
 			if len(lazyTypes) > 0 && rapid.IntRange(0, 3).Draw(t, "lazytype") == 0 {
@@ -150,7 +176,17 @@ func TestSize(t *testing.T) {
 			} else {
 				c.Case = mcase.Draw(t, nil, nil, gen.DefaultMsgOpts, model.AllPerturbations)
 			}
-			c.Source = rapid.SampledFrom([]string{"built", "decoded", "decoded-ref"}).Draw(t, "source")
+			c.Source = rapid.SampledFrom([]string{"built", "decoded", "decoded-ref", "recycled"}).Draw(t, "source")
+			if c.Source == "recycled" {
+				md := c.Desc()
+				c.Pre = c.M
+				c.PreMarshal = rapid.Bool().Draw(t, "premarshal")
+				c.M = mcase.Hollow(t, md, c.Pre, &c.Hollowed)
+				eo := model.AllPerturbations
+				c.Labels = nil
+				eo.Labels = &c.Labels
+				c.Wire = model.Encode(md, c.M, gen.RapidChooser{T: t}, eo, nil)
+			}
 			c.Lazy = rapid.Bool().Draw(t, "lazy")
 			c.Det = rapid.Bool().Draw(t, "det")
 			c.TouchFirst = rapid.Bool().Draw(t, "touch")
@@ -167,6 +203,9 @@ func TestSize(t *testing.T) {
 		},
 		Classes: func(c sizeCase) []string {
 			cl := append(c.Classes(), "source-"+c.Source)
+			if c.Hollowed > 0 {
+				cl = append(cl, "recycled-with-emptied-submessage")
+			}
 			if c.Lazy && c.Source != "built" && !c.Dynamic && isLazyType(c.Type) {
 				cl = append(cl, "lazy-decoded")
 				if len(c.Labels) > 0 && c.Source == "decoded-ref" {
